@@ -347,6 +347,7 @@ func (r *Runner) runPath(x *Exec, it workItem, setups map[string]bool) {
 	}
 	x.stubs = harnessStubs(pkg)
 	x.stubOff = nil
+	x.stubOn = nil
 	func() {
 		defer func() {
 			rec := recover()
@@ -467,6 +468,13 @@ func harnessStubs(pkg *ssa.Package) map[string]*ssa.Function {
 			parts := strings.SplitN(strings.TrimPrefix(name, "verifStub_"), "_", 2)
 			if len(parts) == 2 {
 				m[modPath+"/"+parts[0]+"."+parts[1]] = f
+			}
+		}
+		// optional stubs: only active after the harness called vStubOn(<pkg>.<Func>)
+		if f, ok := mem.(*ssa.Function); ok && strings.HasPrefix(name, "verifStubOpt_") {
+			parts := strings.SplitN(strings.TrimPrefix(name, "verifStubOpt_"), "_", 2)
+			if len(parts) == 2 {
+				m["opt:"+modPath+"/"+parts[0]+"."+parts[1]] = f
 			}
 		}
 	}
